@@ -38,10 +38,10 @@ pub struct World {
 
 pub type Kv = HashMap<String, String>;
 
-fn get_u(kv: &Kv, k: &str) -> Option<u64> {
+pub fn get_u(kv: &Kv, k: &str) -> Option<u64> {
     kv.get(k).and_then(|v| v.parse::<u64>().ok())
 }
-fn get_i(kv: &Kv, k: &str) -> Option<i64> {
+pub fn get_i(kv: &Kv, k: &str) -> Option<i64> {
     kv.get(k).and_then(|v| v.parse::<i64>().ok())
 }
 
@@ -83,6 +83,181 @@ fn parse_rlist(s: &str) -> Option<Vec<(usize, bool, bool)>> {
     Some(res)
 }
 
+/// decision matrix of a room: for every key 1..K and date 0..=dmax+1 one number whose bits are
+///   0 admin, 1 member of the room, then for the group slots 0..3 12 bits each
+///   [valid, user-admin, can(e, self), can(e, all) for the 5 entities], then Room::can(e, self|all) (10 bits)
+pub fn matrix_of(
+    room: &Room,
+    r: u64,
+    groups: &BTreeMap<(u64, u64), Uid>,
+    nkeys: u64,
+    dmax: i64,
+    keys: &mut HashMap<u64, Vec<u8>>,
+    case: u64,
+) -> String {
+    // a fixed layout: group slots 0..NGROUPS, whether or not the group exists (anywhere)
+    let gids: Vec<Option<Uid>> = (0..NGROUPS).map(|g| groups.get(&(r, g)).copied()).collect();
+    let mut out: Vec<String> = vec![];
+    for k in 1..=nkeys {
+        let key = key_of(keys, case, k);
+        let mut cells: Vec<String> = vec![];
+        for d in 0..=(dmax + 1) {
+            let mut bits: u128 = 0;
+            let mut pos = 0;
+            let mut push = |b: bool| {
+                if b {
+                    bits |= 1u128 << pos;
+                }
+                pos += 1;
+            };
+            push(room.is_admin(&key, d));
+            push(room.is_user_valid_at(&key, d));
+            for gid in &gids {
+                match gid.and_then(|g| room.authorisations.get(&g)) {
+                    Some(a) => {
+                        push(a.is_user_valid_at(&key, d));
+                        push(a.can_admin_users(&key, d));
+                        for e in ENTITIES {
+                            push(a.can(e, d, &RightType::MutateSelf));
+                            push(a.can(e, d, &RightType::MutateAll));
+                        }
+                    }
+                    None => {
+                        for _ in 0..12 {
+                            push(false);
+                        }
+                    }
+                }
+            }
+            for e in ENTITIES {
+                push(room.can(&key, e, d, &RightType::MutateSelf));
+                push(room.can(&key, e, d, &RightType::MutateAll));
+            }
+            cells.push(format!("{}", bits));
+        }
+        out.push(format!("{}:{}", k, cells.join(".")));
+    }
+    format!("m groups={} {}", room.authorisations.len(), out.join("|"))
+}
+
+pub struct RoomMutation {
+    pub q: String,
+    pub p: Vec<(String, String)>,
+    pub r: u64,
+    pub is_new: bool,
+    pub mentioned: Vec<u64>,
+    pub created: Vec<u64>,
+}
+
+/// identity of key index k: the verifying key the service derives from `secret_of(k, case)`
+pub fn key_of(cache: &mut HashMap<u64, Vec<u8>>, case: u64, k: u64) -> Vec<u8> {
+    cache
+        .entry(k)
+        .or_insert_with(|| {
+            let signature_key = derive_key(&format!("{} SIGNING_KEY", "dv room"), &secret_of(k, case));
+            Ed25519SigningKey::create_from(&signature_key).export_verifying_key()
+        })
+        .clone()
+}
+
+pub fn signing_key_of(case: u64, k: u64) -> Ed25519SigningKey {
+    let signature_key = derive_key(&format!("{} SIGNING_KEY", "dv room"), &secret_of(k, case));
+    Ed25519SigningKey::create_from(&signature_key)
+}
+
+/// the text and parameters of a `sys.Room` mutation from the tokens of a `mut`/`rmut` op line;
+/// `None` = malformed op
+pub fn build_room_mutation(
+    kv: &Kv,
+    rooms: &HashMap<u64, Uid>,
+    groups: &BTreeMap<(u64, u64), Uid>,
+    key: &mut dyn FnMut(u64) -> Vec<u8>,
+) -> Option<RoomMutation> {
+    let r = get_u(kv, "r")?;
+    let is_new = kv.get("new").map(|v| v == "1").unwrap_or(false);
+    let mut p: Vec<(String, String)> = vec![];
+    let mut q = String::from("mutate { sys.Room { ");
+    if !is_new {
+        let id = rooms.get(&r)?;
+        p.push(("r".into(), base64_encode(id)));
+        q.push_str("id:$r ");
+    } else if rooms.contains_key(&r) {
+        return None;
+    }
+    let mut ulist = |tag: &str, l: &[(u64, Option<bool>)], q: &mut String, p: &mut Vec<(String, String)>| {
+        q.push('[');
+        for (i, (k, en)) in l.iter().enumerate() {
+            let name = format!("{}{}", tag, i);
+            p.push((name.clone(), base64_encode(&key(*k))));
+            match en {
+                Some(b) => q.push_str(&format!("{{verif_key:${} enabled:{}}}, ", name, b)),
+                None => q.push_str(&format!("{{verif_key:${}}}, ", name)),
+            }
+        }
+        q.push(']');
+    };
+    if let Some(a) = kv.get("adm") {
+        let l = parse_ulist(a).filter(|l| !l.is_empty())?;
+        q.push_str("admin:");
+        ulist("a", &l, &mut q, &mut p);
+        q.push(' ');
+    }
+    let mut created: Vec<u64> = vec![];
+    let mut mentioned: Vec<u64> = vec![];
+    if let Some(gs) = kv.get("grp") {
+        q.push_str("authorisations:[");
+        for g in gs.split(',').filter(|t| !t.is_empty()) {
+            let g = g.parse::<u64>().ok()?;
+            if mentioned.contains(&g) {
+                return None;
+            }
+            mentioned.push(g);
+            q.push('{');
+            match groups.get(&(r, g)) {
+                Some(id) => {
+                    let name = format!("g{}", g);
+                    p.push((name.clone(), base64_encode(id)));
+                    q.push_str(&format!("id:${} ", name));
+                }
+                None => {
+                    created.push(g);
+                    q.push_str(&format!("name:\"g{}\" ", g));
+                }
+            }
+            if let Some(u) = kv.get(&format!("g{}.r", g)) {
+                let l = parse_rlist(u).filter(|l| !l.is_empty())?;
+                q.push_str("rights:[");
+                for (e, ms, ma) in l {
+                    q.push_str(&format!(
+                        "{{entity:\"{}\" mutate_self:{} mutate_all:{}}}, ",
+                        ENTITIES[e], ms, ma
+                    ));
+                }
+                q.push_str("] ");
+            }
+            if let Some(u) = kv.get(&format!("g{}.u", g)) {
+                let l = parse_ulist(u).filter(|l| !l.is_empty())?;
+                q.push_str("users:");
+                ulist(&format!("u{}x", g), &l, &mut q, &mut p);
+                q.push(' ');
+            }
+            if let Some(u) = kv.get(&format!("g{}.ua", g)) {
+                let l = parse_ulist(u).filter(|l| !l.is_empty())?;
+                q.push_str("user_admin:");
+                ulist(&format!("v{}x", g), &l, &mut q, &mut p);
+                q.push(' ');
+            }
+            q.push_str("}, ");
+        }
+        q.push_str("] ");
+        if mentioned.is_empty() {
+            return None;
+        }
+    }
+    q.push_str("} }");
+    Some(RoomMutation { q, p, r, is_new, mentioned, created })
+}
+
 impl World {
     pub fn new(base: PathBuf, case_id: u64, nkeys: u64, dmax: i64) -> World {
         World {
@@ -97,17 +272,9 @@ impl World {
         }
     }
 
-    /// identity of key index k: the verifying key the service derives from `secret_of(k, case)`
     pub fn key(&mut self, k: u64) -> Vec<u8> {
         let case = self.case_id;
-        self.keys
-            .entry(k)
-            .or_insert_with(|| {
-                let signature_key =
-                    derive_key(&format!("{} SIGNING_KEY", "dv room"), &secret_of(k, case));
-                Ed25519SigningKey::create_from(&signature_key).export_verifying_key()
-            })
-            .clone()
+        key_of(&mut self.keys, case, k)
     }
 
     /// sites 0..2 are the identities 1..3; later sites (fresh importers) have identities outside the matrix
@@ -137,110 +304,17 @@ impl World {
     }
 
     pub async fn op_mut(&mut self, kv: &Kv) -> String {
-        let (s, d, r) = match (get_u(kv, "s"), get_i(kv, "d"), get_u(kv, "r")) {
-            (Some(s), Some(d), Some(r)) => (s, d, r),
+        let (s, d) = match (get_u(kv, "s"), get_i(kv, "d")) {
+            (Some(s), Some(d)) => (s, d),
             _ => return "bad-op".into(),
         };
-        let is_new = kv.get("new").map(|v| v == "1").unwrap_or(false);
-        let mut p: Vec<(String, String)> = vec![];
-        let mut q = String::from("mutate { sys.Room { ");
-        if !is_new {
-            match self.rooms.get(&r) {
-                Some(id) => {
-                    p.push(("r".into(), base64_encode(id)));
-                    q.push_str("id:$r ");
-                }
-                None => return "bad-op".into(),
-            }
-        } else if self.rooms.contains_key(&r) {
-            return "bad-op".into();
-        }
-        let mut ulist = |this: &mut World, tag: &str, l: &[(u64, Option<bool>)], q: &mut String, p: &mut Vec<(String, String)>| {
-            q.push('[');
-            for (i, (k, en)) in l.iter().enumerate() {
-                let name = format!("{}{}", tag, i);
-                p.push((name.clone(), base64_encode(&this.key(*k))));
-                match en {
-                    Some(b) => q.push_str(&format!("{{verif_key:${} enabled:{}}}, ", name, b)),
-                    None => q.push_str(&format!("{{verif_key:${}}}, ", name)),
-                }
-            }
-            q.push(']');
+        let case = self.case_id;
+        let keys = &mut self.keys;
+        let rm = match build_room_mutation(kv, &self.rooms, &self.groups, &mut |k| key_of(keys, case, k)) {
+            Some(rm) => rm,
+            None => return "bad-op".into(),
         };
-        if let Some(a) = kv.get("adm") {
-            let l = match parse_ulist(a) {
-                Some(l) if !l.is_empty() => l,
-                _ => return "bad-op".into(),
-            };
-            q.push_str("admin:");
-            ulist(self, "a", &l, &mut q, &mut p);
-            q.push(' ');
-        }
-        let mut created: Vec<u64> = vec![];
-        let mut mentioned: Vec<u64> = vec![];
-        if let Some(gs) = kv.get("grp") {
-            q.push_str("authorisations:[");
-            for g in gs.split(',').filter(|t| !t.is_empty()) {
-                let g = match g.parse::<u64>() {
-                    Ok(g) => g,
-                    Err(_) => return "bad-op".into(),
-                };
-                if mentioned.contains(&g) {
-                    return "bad-op".into();
-                }
-                mentioned.push(g);
-                q.push('{');
-                match self.groups.get(&(r, g)) {
-                    Some(id) => {
-                        let name = format!("g{}", g);
-                        p.push((name.clone(), base64_encode(id)));
-                        q.push_str(&format!("id:${} ", name));
-                    }
-                    None => {
-                        created.push(g);
-                        q.push_str(&format!("name:\"g{}\" ", g));
-                    }
-                }
-                if let Some(u) = kv.get(&format!("g{}.r", g)) {
-                    let l = match parse_rlist(u) {
-                        Some(l) if !l.is_empty() => l,
-                        _ => return "bad-op".into(),
-                    };
-                    q.push_str("rights:[");
-                    for (e, ms, ma) in l {
-                        q.push_str(&format!(
-                            "{{entity:\"{}\" mutate_self:{} mutate_all:{}}}, ",
-                            ENTITIES[e], ms, ma
-                        ));
-                    }
-                    q.push_str("] ");
-                }
-                if let Some(u) = kv.get(&format!("g{}.u", g)) {
-                    let l = match parse_ulist(u) {
-                        Some(l) if !l.is_empty() => l,
-                        _ => return "bad-op".into(),
-                    };
-                    q.push_str("users:");
-                    ulist(self, &format!("u{}x", g), &l, &mut q, &mut p);
-                    q.push(' ');
-                }
-                if let Some(u) = kv.get(&format!("g{}.ua", g)) {
-                    let l = match parse_ulist(u) {
-                        Some(l) if !l.is_empty() => l,
-                        _ => return "bad-op".into(),
-                    };
-                    q.push_str("user_admin:");
-                    ulist(self, &format!("v{}x", g), &l, &mut q, &mut p);
-                    q.push(' ');
-                }
-                q.push_str("}, ");
-            }
-            q.push_str("] ");
-            if mentioned.is_empty() {
-                return "bad-op".into();
-            }
-        }
-        q.push_str("} }");
+        let RoomMutation { q, p, r, is_new, mentioned, created } = rm;
         clock::set(d);
         let inst = match self.site(s).await {
             Ok(i) => i,
@@ -265,53 +339,9 @@ impl World {
         }
     }
 
-    /// decision matrix of a room: for every key 1..K and date 0..=dmax+1 one number whose bits are
-    ///   0 admin, 1 member of the room, then for the group slots 0..3 12 bits each
-    ///   [valid, user-admin, can(e, self), can(e, all) for the 5 entities], then Room::can(e, self|all) (10 bits)
     pub fn matrix(&mut self, room: &Room, r: u64) -> String {
-        // a fixed layout: group slots 0..NGROUPS, whether or not the group exists (anywhere)
-        let gids: Vec<Option<Uid>> = (0..NGROUPS).map(|g| self.groups.get(&(r, g)).copied()).collect();
-        let mut out: Vec<String> = vec![];
-        for k in 1..=self.nkeys {
-            let key = self.key(k);
-            let mut cells: Vec<String> = vec![];
-            for d in 0..=(self.dmax + 1) {
-                let mut bits: u128 = 0;
-                let mut pos = 0;
-                let mut push = |b: bool| {
-                    if b {
-                        bits |= 1u128 << pos;
-                    }
-                    pos += 1;
-                };
-                push(room.is_admin(&key, d));
-                push(room.is_user_valid_at(&key, d));
-                for gid in &gids {
-                    match gid.and_then(|g| room.authorisations.get(&g)) {
-                        Some(a) => {
-                            push(a.is_user_valid_at(&key, d));
-                            push(a.can_admin_users(&key, d));
-                            for e in ENTITIES {
-                                push(a.can(e, d, &RightType::MutateSelf));
-                                push(a.can(e, d, &RightType::MutateAll));
-                            }
-                        }
-                        None => {
-                            for _ in 0..12 {
-                                push(false);
-                            }
-                        }
-                    }
-                }
-                for e in ENTITIES {
-                    push(room.can(&key, e, d, &RightType::MutateSelf));
-                    push(room.can(&key, e, d, &RightType::MutateAll));
-                }
-                cells.push(format!("{}", bits));
-            }
-            out.push(format!("{}:{}", k, cells.join(".")));
-        }
-        format!("m groups={} {}", room.authorisations.len(), out.join("|"))
+        let case = self.case_id;
+        matrix_of(room, r, &self.groups, self.nkeys, self.dmax, &mut self.keys, case)
     }
 
     pub async fn op_obs(&mut self, kv: &Kv) -> String {
